@@ -35,6 +35,10 @@ def items():
         k = 'M-%s-%s' % (os.path.basename(os.path.dirname(d)), os.path.basename(d))
         if not any(x[0] == k for x in out) and os.path.exists(d + '/patch.diff'):
             out.append((k, d + '/patch.diff', 'benign', os.path.basename(os.path.dirname(d))))
+    for d in sorted(glob.glob('/verif/benign5/C*/[0-9]')) + sorted(glob.glob('/tmp/benign5/C*/[0-9]')):
+        k = 'Q-%s-%s' % (os.path.basename(os.path.dirname(d)), os.path.basename(d))
+        if not any(x[0] == k for x in out) and os.path.exists(d + '/patch.diff'):
+            out.append((k, d + '/patch.diff', 'benign', os.path.basename(os.path.dirname(d))))
     return out
 
 
